@@ -108,7 +108,7 @@ func (p *propC05) Assumptions() []string {
 	}
 }
 func (p *propC05) ProbeNames() []string {
-	return []string{"union definition wider than every single message", "array padded", "out-of-domain value encoded", "stale Header.CRC overwritten", "Encode failed on out-of-domain File", "header with CRC", "big endian", "preceded by a failed Encode"}
+	return []string{"union definition wider than every single message", "array padded", "out-of-domain value encoded", "stale Header.CRC overwritten", "Encode failed on out-of-domain File", "header with CRC", "big endian", "preceded by a failed Encode", "re-encoded after a header change"}
 }
 
 func (p *propC05) Prepare(seed uint64, tier string) int {
@@ -150,6 +150,16 @@ func (p *propC05) Gen(idx int) *Scenario {
 		}
 		sc.Tasks = append(sc.Tasks, pre)
 		sc.Family = "after-failed-encode"
+	} else if r.Chance(1, 10) {
+		// the same File encoded twice, its header's protocol version changed in between
+		// (a header that already carries a data size and a CRC is re-used)
+		np := byte(0x10)
+		if mf.Proto == 0x10 {
+			np = 0x20
+		}
+		sc.Tasks[0].Repeat = 2
+		sc.Tasks[0].Between = "proto:" + itoa(int(np))
+		sc.Family = "re-encode-after-header-change"
 	}
 	return sc
 }
@@ -243,8 +253,15 @@ func (p *propC05) Check(sc *Scenario, st *Stats) []Violation {
 	if f.HeaderSize != wantHS {
 		bad("grammar/header-size", "header size %d, File.Header.Size says %d", f.HeaderSize, wantHS)
 	}
-	if f.Proto != mf.Proto {
-		bad("grammar/protocol-version", "protocol version %#x written, header says %#x", f.Proto, mf.Proto)
+	wantProto := mf.Proto
+	if strings.HasPrefix(t.Between, "proto:") && t.Repeat >= 2 {
+		v := 0
+		fmt.Sscan(t.Between[len("proto:"):], &v)
+		wantProto = byte(v)
+		st.Probe("re-encoded after a header change")
+	}
+	if f.Proto != wantProto {
+		bad("grammar/protocol-version", "protocol version %#x written, header says %#x", f.Proto, wantProto)
 	}
 	if f.HasHCRC && f.HCRC == 0 && crc16(out[:12]) != 0 {
 		bad("grammar/header-crc-zero", "14-byte header written with CRC 0 although its contents sum to %#04x", crc16(out[:12]))
